@@ -14,8 +14,11 @@ name, root = sys.argv[1:3]
 m = [x for x in mutants.MUTANTS if x[1] == name][0]
 p = root + '/' + m[2]
 s = open(p, newline='').read()
-assert s.count(m[3]) == 1, (name, s.count(m[3]))
-open(p, 'w', newline='').write(s.replace(m[3], m[4]))
+olds, news = (m[3], m[4]) if isinstance(m[3], list) else ([m[3]], [m[4]])
+for o, n in zip(olds, news):
+    assert s.count(o) == 1, (name, o, s.count(o))
+    s = s.replace(o, n)
+open(p, 'w', newline='').write(s)
 print('mutant', name, 'targets', m[0])
 PY
 pid=$(/venv/bin/python -c "
